@@ -90,7 +90,7 @@ pub struct Run {
     pub fault: Option<(&'static str, u64)>,
     /// cumulative premium fraction at which each trader's position was last charged funding
     /// (harness-side ledger: successful Open / Close / Withdraw by the trader, full liquidation)
-    pub charged_at: BTreeMap<&'static str, Integer>,
+    pub charged_at: BTreeMap<(usize, &'static str), Integer>,
     /// a funding settlement has succeeded earlier in this history
     pub funding_settled: bool,
 }
@@ -180,7 +180,7 @@ impl Run {
             let who = rec.op.sender();
             match &rec.op {
                 Op::Open { .. } | Op::Close { .. } | Op::Withdraw { .. } => {
-                    self.charged_at.insert(who, rec.post.cum[self.vi]);
+                    self.charged_at.insert((self.vi, who), rec.post.cum[self.vi]);
                 }
                 _ => {}
             }
